@@ -7,7 +7,14 @@ from . import potential as _P
 FILE = 'atsim/potentials/config/_pair_potential_builder.py'
 F_PFB = 'atsim/potentials/config/_potential_form_builder.py'
 REG.add_class(ClassDecl('atsim/potentials/config/_common.py', 'SpeciesTuple', {'species_a': T.Str, 'species_b': T.Str}, external=True))
-REG.add_class(ClassDecl('atsim/potentials/config/_common.py', 'PFInstance', {}, external=True))          # PotentialFormInstanceTuple / PotentialModifierTuple chain
+# PFInstance stands for both tuple types of a definition chain: a PotentialFormInstanceTuple HAS potential_form / parameters, a PotentialModifierTuple
+# HAS modifier / potential_forms (reading an attribute the tuple lacks is an AttributeError); both have start (None without a range marker) and next
+REG.add_class(ClassDecl('atsim/potentials/config/_common.py', 'RangeStart', {'range_type': T.Str, 'start': T.Real}, external=True, pyname='MultiRangeDefinitionTuple'))
+REG.add_class(ClassDecl('atsim/potentials/config/_common.py', 'PFInstance',
+    {'potential_form': T.Opt(T.Str), 'parameters': T.Opt(T.List(T.Real)), 'modifier': T.Opt(T.Str), 'potential_forms': T.Opt(T.List(T.Obj('PFInstance'))),
+     'start': T.Opt(T.Obj('RangeStart')), 'next': T.Opt(T.Obj('PFInstance'))},
+    external=True, optional_attrs=('potential_form', 'parameters', 'modifier', 'potential_forms')))
+REG.classes['PFInstance'].namedtuple = True
 REG.add_class(ClassDecl('atsim/potentials/config/_common.py', 'PairPotentialTuple', {'species': T.Obj('SpeciesTuple'), 'potential_form_instance': T.Obj('PFInstance')}, external=True))
 REG.add_class(ClassDecl(F_PFB, 'Potential_Form_Builder', {}, external=True))
 REG.add_class(ClassDecl('<ext>', 'Registry', {}, external=True))
